@@ -6,6 +6,7 @@
 import Csvq.Lemmas.Compare
 import Csvq.Model.Float
 import Csvq.Lemmas.Text
+import Csvq.Lemmas.Float
 namespace Csvq.C06
 open Csvq
 
@@ -331,6 +332,20 @@ theorem fmod_agrees_int (p q : Int) (hq : q ≠ 0) :
     split <;> simp [FVal.feq, FVal.num?]
   · simp only [hr, if_false]
     simp [FVal.feq, FVal.num?]
+
+/-- float64(i) is exact for every integer of magnitude below 2^53 (the driver's rounding instance) -/
+theorem int_to_float_exact (i : Int) (h : i.natAbs < FVal.pow2 53) :
+    FVal.ofInt i = .fin (i * (FVal.unit : Int)) := FVal.ofInt_exact i h
+
+/-- float `+` agrees with integer `+` on integral operands: for integers p, q with |p|, |q|, |p+q| < 2^53
+    the IEEE sum of their float images is the float image of the integer sum (no rounding occurs).
+    (`-` and `*` on integral operands are validated by the correspondence stream `c06.arith` and the
+    implementation law `float_int_agree`; their exactness theorems are not proved here.) -/
+theorem float_int_add_agree (p q : Int) (hp : p.natAbs < FVal.pow2 53) (hq : q.natAbs < FVal.pow2 53)
+    (hr : (p + q).natAbs < FVal.pow2 53) :
+    calcFloat FVal.ieee .add (FVal.ofInt p) (FVal.ofInt q) = FVal.ofInt (p + q) := by
+  rw [FVal.ofInt_exact p hp, FVal.ofInt_exact q hq, FVal.ofInt_exact (p + q) hr]
+  exact FVal.add_int_exact p q hr
 
 /-! ## casting between text and integers (strconv.FormatInt / ParseInt as modelled in Model/Text.lean,
     both tied to the implementation by the streams c06.sint and c06.itext) -/
